@@ -24,6 +24,9 @@ def numeric_params(topo, seed):
     return numrun.exact_params(topo, seed)
 
 
+LONG_FLAGS = 0b000011  # initial speed/density clamps (arguments recovered from clamped expressions)
+
+
 def cas_terms(topo, symtype, numeric, compact, more_out, flags=None):
     F, built, P, declared = runs.cas_function(topo, symtype, numeric, compact, more_out, flags)
     ins, outs = layout.expected(topo, built, compact, list(declared), more_out)
@@ -51,13 +54,14 @@ def work(item):
     D = [netcheck.apply_numeric(c, numeric) for c in ref_metanet.admissible_domain(topo)]
     D = [c for c in D if not z3.is_true(z3.simplify(c))]
     prover = discharge.Prover(timeout_ms=timeout_ms, seed=seed)
+    flags = runs.flags_of(LONG_FLAGS) if topo.name.startswith("x01") else None
     try:
-        paths = netcheck.numpy_encodings(topo, style, None, D, numeric)
+        paths = netcheck.numpy_encodings(topo, style, flags, D, numeric)
     except (symx.UnsupportedOp, symx.Inconclusive) as e:
         acc.inconclusive(f"{topo.name}: {type(e).__name__}: {e}")
         return acc.done()
     try:
-        F, ins, outs, named, info = cas_terms(topo, symtype, numeric, compact, more_out)
+        F, ins, outs, named, info = cas_terms(topo, symtype, numeric, compact, more_out, flags)
     except symx.Inconclusive as e:
         acc.exec_violation(PID, topo, f"casadi[{tag}]", style, f"layout: {e}", extra={"numeric": numeric, "compact": compact, "more_out": more_out})
         return acc.done()
@@ -124,14 +128,15 @@ def work(item):
 
 
 def replay_point(topo, style, symtype, mode, compact, more_out, numeric, env, el, st, i, nm, k, verbose=False):
+    flags = runs.flags_of(LONG_FLAGS) if topo.name.startswith("x01") else None
     envn = dict(env)
     if numeric:
         envn.update({kk: float(v) for kk, v in numeric.items()})
-    nres, exc = numrun.numpy_float(topo, envn, style)
+    nres, exc = numrun.numpy_float(topo, envn, style, flags)
     if exc is not None:
         return None
     try:
-        F, ins, outs, named, info = cas_terms(topo, symtype, numeric, compact, more_out)
+        F, ins, outs, named, info = cas_terms(topo, symtype, numeric, compact, more_out, flags)
         cres = dict(cas_numeric(F, ins, env, numeric))
     except Exception:  # noqa
         return None
@@ -185,6 +190,9 @@ def main():
             if mode == "num" and has_main(t):
                 mode = "sym"
             items.append((t.to_json(), mode, compact, mo, ("SX", "MX")[k % 2], ("array", "scalar")[k % 2], args.seed + k, timeout))
+    for sym in ("SX", "MX"):
+        for compact in (0, 2):
+            items.append((families.long_link().to_json(), "sym", compact, False, sym, "array", args.seed, timeout))
     if args.only:
         items = [it for it in items if args.only in it[0]["name"]]
     results = harness.pmap(work, items, args.serial)
